@@ -542,6 +542,14 @@ def main(argv=None):
         if rc == 0:
             rc = 2
 
+    # classes of cases the property module declares indispensable: an empty class means the generator must be fixed (never a violation)
+    required = [l for l in getattr(mod, "REQUIRED_LABELS", []) if not a.only or l.split("/")[0] in [s_.name for s_ in subs]]
+    missing = [l for l in required if labels.get(l, 0) == 0]
+    if missing:
+        print("COVERAGE-GAP property=%s no generated case in the required classes: %s" % (prop_id, ", ".join(missing)))
+        if a.tier == "thorough" and rc == 0:
+            harness_errors.append("required classes not reached: %s" % ", ".join(missing))
+            rc = 2
     wall = time.time() - t0
     rule = getattr(mod, "RULE", "")
     evidence = dict(
@@ -556,6 +564,8 @@ def main(argv=None):
             per_subcheck=per_sub,
             labels=dict(sorted(labels.items())),
             skipped_inadmissible=dict(skipped),
+            required_classes=required,
+            required_classes_missing=missing,
             worst_observed_margins=margins,
             regress_replayed=n_regress,
             excluded_known_findings=dict(known_hits),
